@@ -242,16 +242,17 @@ class ConcPairsPart(ConcPart):
     """Every unordered pair of the call menu x every start state, k seeded schedules each."""
     must_complete = True
 
-    def __init__(self, prop, family, name, per_shape=(4, 40), mp=False, weight=1.0, atom=False):
+    def __init__(self, prop, family, name, per_shape=(4, 40), mp=False, weight=1.0, atom=False, triples=False):
         ConcPart.__init__(self, prop, family, mp=mp, name=name, weight=weight, atom=atom)
         self.per_shape = per_shape
+        self.triples = triples
         self.rule = ("CONC pair sweep: every unordered pair of a %s-call menu x every start state (complete over that "
                      "menu), each under k seeded schedules (k=%d quick, %d thorough; policy, wake-up choice and start "
                      "stagger drawn per schedule). " % (family, per_shape[0], per_shape[1])) + ConcPart.rule
 
     def items(self, seed, tier, worker, nworkers):
         k = self.per_shape[0] if tier == "quick" else self.per_shape[1]
-        shapes = gen.conc_pair_shapes(self.family)
+        shapes = gen.conc_triple_shapes(self.family) if self.triples else gen.conc_pair_shapes(self.family)
         n = 0
         for rep in range(k):
             for si, sh in enumerate(shapes):
